@@ -212,7 +212,7 @@ def any_depth_bounded(f, comp):
             args = call_args(rc)
             if idx >= len(args):
                 return False, 'recursive call does not pass the depth counter'
-            a = hirq.peel_refs(args[idx])
+            a = hirq.peel_refs(hirq.resolve_expr(B, args[idx]))      # through an immutable `let child_depth = depth + 1;`
             if hirq.local_of(a) == b:
                 pass
             elif a['k'] == 'Binary' and a['op'] == 'Add' and hirq.local_of(a['l']) == b and hirq.const_eval(f, a['r']) == 1:
